@@ -414,9 +414,9 @@ class ShuffleSplitWiring(Contract):
         P.set(ms, "ShuffleSplit", SymShuffleSplitBlocks)
 
     def configs(self, tier):
-        out = [{"G": 2, "n_splits": 1, "balancing": 1, "test": 1}, {"G": 3, "n_splits": 1, "balancing": 2, "test": 1}, {"G": 3, "n_splits": 2, "balancing": 2, "test": 2}]
+        out = [{"G": 2, "n_splits": 1, "balancing": 1, "test": 1}, {"G": 3, "n_splits": 1, "balancing": 2, "test": 1}, {"G": 3, "n_splits": 2, "balancing": 1, "test": 2}]
         if tier == "thorough":
-            out += [{"G": 4, "n_splits": 2, "balancing": 2, "test": 2}, {"G": 3, "n_splits": 1, "balancing": 3, "test": 1}]
+            out += [{"G": 3, "n_splits": 2, "balancing": 2, "test": 2}, {"G": 4, "n_splits": 2, "balancing": 2, "test": 2}, {"G": 3, "n_splits": 1, "balancing": 3, "test": 1}]
         return out
 
     def setup(self, B, cfg):
